@@ -60,6 +60,8 @@ type GenSigningInfo struct {
 type Genesis struct {
 	TimeUnix  int64   `json:"time_unix"`
 	Balances  []int64 `json:"balances"` // per account index
+	// Kilo: accounts whose genesis balance is a thousand times the listed one (amounts beyond 2^63)
+	Kilo []int `json:"kilo,omitempty"`
 	Dust      []int64 `json:"dust,omitempty"` // per account: balance in a second denomination ("dust")
 	// Third: per account balance in a third denomination ("aaa", sorts before the others) that nothing ever moves:
 	// three-coin balances for the coin-set arithmetic, conservation is checked per denomination
